@@ -105,6 +105,10 @@ def handleP (op : String) : P String := do
   | "cap" => do
       let lt ← nI; let sing ← nI; let rg ← nI; let gap ← nF; let sd ← nF
       return toString (maxLowCount lt sing rg gap sd)
+  | "adjust" => do
+      let cur ← nI; let tgt ← nI; let n ← nN; let cs ← rep n nI
+      if cur == 0 then return "ERR zerodiv"
+      return " ".intercalate ((adjustCountsPure (α := Float) cs cur tgt).map toString)
   | "round" => return toString (ScalarOps.roundHE (← nF))
   | "trunc" => return toString (ScalarOps.trunc (← nF))
   | _ => return "ERR bad-op"
@@ -189,6 +193,20 @@ partial def loop (h : IO.FS.Stream) (out : IO.FS.Stream) (st : DState) : IO Unit
           let t := F.tree realEnv 8 (comb.map String.toNat!)
           if t.depth 5000 ≥ 3990 then out.putStrLn "ERR fuel" else
           for l in dumpNode t.data.path.length t do out.putStrLn l
+          out.putStrLn "END"
+      loop h out st
+  | "harvest" :: rest =>
+      match st.forest with
+      | none => out.putStrLn "ERR no-forest"; out.putStrLn "END"
+      | some F =>
+          let comb := (rest.takeWhile (· ≠ "|")).map String.toNat!
+          let stream := ((rest.dropWhile (· ≠ "|")).drop 1).map String.toNat!
+          let t := F.tree realEnv 8 comb
+          match harvest realEnv F.ctx t stream with
+          | .error e => out.putStrLn ("ERR " ++ e)
+          | .ok (bs, drawn) =>
+              for b in bs do out.putStrLn s!"{b.count} | {sIvs b.ivs}"
+              out.putStrLn s!"drawn {drawn}"
           out.putStrLn "END"
       loop h out st
   | "counts" :: comb =>
